@@ -125,6 +125,43 @@ func factsBlock() {
 	emitList("shipperUploadOrder", "pkg/shipper/shipper.go upload(): hard link, meta rewrite, block.Upload",
 		callSeq(body(fn(sf, "Shipper", "upload")), "hardlinkBlock", "meta.WriteToDir", "block.Upload"))
 
+	// ---- C35: external labels are read through the callback at every upload (no cached copy)
+	lblExpr := "unknown"
+	if ub := body(fn(sf, "Shipper", "upload")); ub != nil {
+		ast.Inspect(ub, func(n ast.Node) bool {
+			if is, ok := n.(*ast.IfStmt); ok && is.Init != nil && strings.Contains(text(is.Cond), "IsEmpty") && lblExpr == "unknown" {
+				lblExpr = text(is.Init)
+			}
+			return true
+		})
+	}
+	emitStr("shipperUploadLabelsExpr", "pkg/shipper/shipper.go upload(): where the external labels attached to the meta come from", lblExpr)
+	var fields []string
+	if sf != nil {
+		ast.Inspect(sf, func(n ast.Node) bool {
+			ts, ok := n.(*ast.TypeSpec)
+			if !ok || ts.Name.Name != "Shipper" {
+				return true
+			}
+			if st, ok := ts.Type.(*ast.StructType); ok {
+				for _, f := range st.Fields.List {
+					for _, nm := range f.Names {
+						fields = append(fields, nm.Name)
+					}
+				}
+			}
+			return false
+		})
+	}
+	emitList("shipperStructFields", "pkg/shipper/shipper.go: fields of Shipper (no cached label set among them)", fields)
+	chkArg := "unknown"
+	for _, c := range blkCalls(body(fn(sf, "Shipper", "Sync")), "newLazyOverlapChecker") {
+		if len(c.Args) == 3 {
+			chkArg = text(c.Args[2])
+		}
+	}
+	emitStr("shipperCheckerLabelsArg", "pkg/shipper/shipper.go Sync(): the labels function handed to the overlap checker", chkArg)
+
 	// ---- C31: pkg/block/fetcher.go DefaultDeduplicateFilter.filterGroup / contains
 	ff := parse("pkg/block/fetcher.go")
 	fg := body(fn(ff, "DefaultDeduplicateFilter", "filterGroup"))
